@@ -233,6 +233,44 @@ def loader_rules(ctx):
         # load: inside a file template looks next to that template first
         check("load: relative to the template first", PageTemplateFile(os.path.join(d2, "main.pt"), search_path=[d1])(), "<p>inc.pt in d2</p>")
         check("load: falls back to the search path", PageTemplateFile(os.path.join(d1, "main1.pt"), search_path=[d2])(), "<p>y.pt in d2</p>")
+        # ... for every place of the template's own directory on (or off) the search path and every placement of the
+        # loaded name: the first match along  [directory of the template] + search path
+        import itertools
+        dirs = {}
+        for nm in ("e1", "e2", "e3"):
+            dirs[nm] = os.path.join(root, nm)
+            os.mkdir(dirs[nm])
+            open(os.path.join(dirs[nm], "main_%s.pt" % nm), "w").write('<div tal:define="t load: part.pt" metal:use-macro="t" />')
+        paths = [p for r in (1, 2, 3) for p in itertools.permutations(sorted(dirs), r)]
+        for have in [h for r in (1, 2, 3) for h in itertools.combinations(sorted(dirs), r)]:
+            for nm in dirs:
+                fn = os.path.join(dirs[nm], "part.pt")
+                if nm in have:
+                    open(fn, "w").write("<p>part of %s</p>" % nm)
+                elif os.path.exists(fn):
+                    os.remove(fn)
+            for path in paths:
+                for tdir in sorted(dirs):
+                    order = [tdir] + [p for p in path]
+                    first = next((x for x in order if x in have), None)
+                    want = "<p>part of %s</p>" % first if first else "ValueError"
+                    for how in ("direct", "loader"):
+                        if how == "loader" and tdir not in path:
+                            continue
+                        try:
+                            if how == "direct":
+                                t = PageTemplateFile(os.path.join(dirs[tdir], "main_%s.pt" % tdir), search_path=[dirs[x] for x in path])
+                            else:
+                                t = TemplateLoader([dirs[x] for x in path]).load("main_%s.pt" % tdir)
+                            got = t()
+                        except ValueError:
+                            got = "ValueError"
+                        except Exception as e:   # noqa
+                            got = "EXC %s" % type(e).__name__
+                        check("load: part.pt from a template in %s (%s), search path %s, part.pt present in %s" % (tdir, how, list(path), list(have)),
+                              got, want)
+                        if len(ctx.violations) > 6:
+                            return
     finally:
         shutil.rmtree(root, ignore_errors=True)
     ctx.replays += n
